@@ -1193,6 +1193,20 @@ def progress(c, facts, b, g, mfacts):
             if x["k"] == "for":
                 n_for_e1 += 1
                 continue
+            # a `while let Some(v) = opt(STEP).parse_next(input)? { acc = .. }` that the IR reads as a repetition of STEP:
+            # every round consumes at least one symbol of a finite input when STEP is not nullable (the same premise as for
+            # winnow's own repetitions, examined by C03.progress), and the body touches nothing but the accumulator
+            rep_ = None
+            if x["k"] == "while" and fn.module[:1] == ("find_parser",):
+                try:
+                    reps_ = []
+                    g.walk(b.fn_ir(fn.key), lambda y: reps_.append(y) if y["t"] == "rep" and y.get("from_while") is x else None, follow=False)
+                    rep_ = reps_[0] if reps_ else None
+                except F.AnchorMissing:
+                    rep_ = None
+            if rep_ is not None and not g.nullable(rep_["p"]) and not g.opaque_nodes(rep_["p"], follow=True):
+                finite.append("%s: while-let over a non-nullable parser step" % fn.key)
+                continue
             loops.append("%s:%s" % (fn.key, x["k"]))
     # every `for` is decided on the resolved program: the type handed to IntoIterator::into_iter by the loop's desugaring
     # must be a materialised collection or an order-preserving std adaptor stack over one
